@@ -122,6 +122,13 @@ def health(ctx, stats):
             probs.append(f"class {k}: {c.get(k, 0)} < {v}")
     if flow_pools < (4 if ctx.quick else 100):
         probs.append(f"only {flow_pools} histories with flow-based pools")
+    try:
+        from .. import c09_dist
+
+        if getattr(c09_dist, "READY", False):
+            probs += list(c09_dist.health_cells(ctx, stats) or [])
+    except ImportError:
+        pass
     return probs
 
 
